@@ -61,8 +61,9 @@ def weighted_sum(n_consumers, steps):
 
     a, b, wa, wb = gen(1.0), gen(10.0), wgen(0.25), wgen(0.75)
     ws = fm.components.WeightedSum(inputs=["A", "B"])
-    cons = [fm.components.DebugConsumer({"In": fm.Info(time=None, grid=fm.NoGrid(), units=None)}, start=T0, step=s * D,
-                                        callbacks={"In": (lambda n, d, t, i=i: log.append((i, t, float(np.asarray(d.magnitude).reshape(-1)[0]))))})
+    # the first consumer asks for kilometres (a real unit conversion on the way), the others take the producer's metres
+    cons = [fm.components.DebugConsumer({"In": fm.Info(time=None, grid=fm.NoGrid(), units=("km" if i == 0 else None))}, start=T0, step=s * D,
+                                        callbacks={"In": (lambda n, d, t, i=i: log.append((i, t, float(np.asarray(d.magnitude).reshape(-1)[0]) * (1000.0 if i == 0 else 1.0))))})
             for i, s in enumerate(steps[:n_consumers])]
     comp = fm.Composition([a, b, wa, wb, ws] + cons, print_log=False, log_level="ERROR")
     a.outputs["Out"] >> ws.inputs["A"]
@@ -73,7 +74,7 @@ def weighted_sum(n_consumers, steps):
         ws.outputs["WeightedSum"] >> c.inputs["In"]
     with _guard.limit(120.0):
         comp.run(end_time=T0 + 6 * D)
-    bad = [(i, t, v) for i, t, v in log if abs(v - (0.25 * t.day + 0.75 * 10.0 * t.day)) > 1e-9]
+    bad = [(i, t, v) for i, t, v in log if abs(v - (0.25 * t.day + 0.75 * 10.0 * t.day)) > 1e-6]
     return log, bad
 
 
